@@ -426,7 +426,9 @@ class _DefinitionGenerator:
         call_info = functionutils.CallInfo.read(
             primary, pyname, self.definition_info, call
         )
-        paramdict = self.definition_params
+        # Each call site starts from the declared defaults; the shared
+        # dict must not keep the arguments of previously inlined calls.
+        paramdict = dict(self.definition_params)
         mapping = functionutils.ArgumentMapping(self.definition_info, call_info)
         for param_name, value in mapping.param_dict.items():
             paramdict[param_name] = value
